@@ -775,116 +775,123 @@ func gen(c *lib.Ctx) {
 		genIdent(c, c.Rand.Fork("ident"), c.Scale(150, 1500))
 		return
 	}
-	defer genIdent(c, c.Rand.Fork("ident"), c.Scale(40, 400))
+	// C09_PART=nts: only the histories with NTS associations on the live listener (properties C10 and
+	// C11 run this part: the listeners' NTS branch — cookie, authentication, fresh cookies — is theirs too)
+	ntsOnly := os.Getenv("C09_PART") == "nts"
+	if !ntsOnly {
+		defer genIdent(c, c.Rand.Fork("ident"), c.Scale(40, 400))
+	}
 
 	// ---- (a) in-process ---------------------------------------------------------------
-	c.Comment("ValidateRequest: all 256 first bytes x source ports")
-	ports := []int64{0, 1, 122, 123, 124, 1023, 1024, 10123, 32768, 65535}
-	accepted := 0
-	for b0 := 0; b0 < 256; b0++ {
-		ps := append([]int64{}, ports...)
-		ps = append(ps, r.Range(0, 65535), r.Range(0, 65535))
-		first := ""
-		for _, p := range ps {
-			op := fmt.Sprintf("vreq %d %d", b0, p)
-			ans := c.Do(op)
-			if first == "" {
-				first = ans
-				if ans == "ok true" {
-					accepted++
+	if !ntsOnly {
+		c.Comment("ValidateRequest: all 256 first bytes x source ports")
+		ports := []int64{0, 1, 122, 123, 124, 1023, 1024, 10123, 32768, 65535}
+		accepted := 0
+		for b0 := 0; b0 < 256; b0++ {
+			ps := append([]int64{}, ports...)
+			ps = append(ps, r.Range(0, 65535), r.Range(0, 65535))
+			first := ""
+			for _, p := range ps {
+				op := fmt.Sprintf("vreq %d %d", b0, p)
+				ans := c.Do(op)
+				if first == "" {
+					first = ans
+					if ans == "ok true" {
+						accepted++
+					}
+				}
+				want := "ok " + lib.Bool(wellFormed(byte(b0)))
+				if ans != want {
+					c.Fail(fmt.Sprintf("C09:validate:lvm=%d", b0), "ntp.ValidateRequest disagrees with the property's characterisation of a client request",
+						[]string{op}, map[string]any{"lvm": b0, "port": p, "got": ans, "want": want})
+				}
+				if wellFormed(byte(b0)) {
+					c.Count("validate:accepted")
+				} else {
+					c.Count("validate:rejected")
 				}
 			}
-			want := "ok " + lib.Bool(wellFormed(byte(b0)))
-			if ans != want {
-				c.Fail(fmt.Sprintf("C09:validate:lvm=%d", b0), "ntp.ValidateRequest disagrees with the property's characterisation of a client request",
-					[]string{op}, map[string]any{"lvm": b0, "port": p, "got": ans, "want": want})
-			}
-			if wellFormed(byte(b0)) {
-				c.Count("validate:accepted")
-			} else {
-				c.Count("validate:rejected")
-			}
 		}
-	}
-	if accepted != 8 {
-		c.Fail("C09:validate:count", "number of accepted first bytes is not 8", []string{"vreq 35 123"}, map[string]any{"accepted": accepted})
-	}
+		if accepted != 8 {
+			c.Fail("C09:validate:count", "number of accepted first bytes is not 8", []string{"vreq 35 123"}, map[string]any{"accepted": accepted})
+		}
 
-	c.Comment("ValidateRequest on decoded packets with arbitrary remaining bytes")
-	sawPanic := false
-	n := c.Scale(4000, 200000)
-	for i := 0; i < n; i++ {
-		ln := 48
-		switch r.Intn(10) {
-		case 0:
-			ln = int(r.Range(0, 47))
-		case 1:
-			ln = int(r.Range(49, 200))
-		}
-		b := r.Bytes(ln)
-		if ln > 0 && r.Chance(50) {
-			b[0] = []byte{8, 19, 27, 35, 200, 211, 219, 227}[r.Intn(8)]
-			if r.Chance(30) { // one bit away from an accepted byte
-				b[0] ^= 1 << r.Intn(8)
-			}
-		}
-		op := fmt.Sprintf("vreqpkt %s %d", lib.Hex(b), r.Range(0, 65535))
-		ans := c.Do(op)
-		want := "err size"
-		if ln >= 48 {
-			want = "ok " + lib.Bool(wellFormed(b[0]))
-		}
-		if strings.HasPrefix(ans, "panic") {
-			sawPanic = true
-		}
-		if ans != want {
-			c.Fail("C09:validate:packet", "ValidateRequest on a decoded packet depends on more than the first byte, or DecodePacket's size rule changed",
-				[]string{op}, map[string]any{"got": ans, "want": want})
-		}
-		c.Count("vreqpkt:" + want)
-	}
-
-	c.Comment("reply header of handleRequest")
-	for b0 := 0; b0 < 256; b0++ {
-		for k := 0; k < 3; k++ {
-			b := r.Bytes(48)
-			b[0] = byte(b0)
-			switch k {
+		c.Comment("ValidateRequest on decoded packets with arbitrary remaining bytes")
+		sawPanic := false
+		n := c.Scale(4000, 200000)
+		for i := 0; i < n; i++ {
+			ln := 48
+			switch r.Intn(10) {
 			case 0:
-				b[2] = 0
+				ln = int(r.Range(0, 47))
 			case 1:
-				b[2] = 0x80 // poll -128
+				ln = int(r.Range(49, 200))
 			}
-			op := "reply.hdr " + lib.Hex(b)
+			b := r.Bytes(ln)
+			if ln > 0 && r.Chance(50) {
+				b[0] = []byte{8, 19, 27, 35, 200, 211, 219, 227}[r.Intn(8)]
+				if r.Chance(30) { // one bit away from an accepted byte
+					b[0] ^= 1 << r.Intn(8)
+				}
+			}
+			op := fmt.Sprintf("vreqpkt %s %d", lib.Hex(b), r.Range(0, 65535))
 			ans := c.Do(op)
-			xs, ok := lib.Ints(ans)
-			if !ok || len(xs) != 9 {
-				c.Fail("C09:reply:header", "handleRequest did not produce a header", []string{op}, map[string]any{"got": ans})
-				continue
+			want := "err size"
+			if ln >= 48 {
+				want = "ok " + lib.Bool(wellFormed(b[0]))
 			}
-			lvm := xs[0]
-			if lvm/64 != 0 || lvm/8%8 != 4 || lvm%8 != 4 || xs[1] != 1 {
-				c.Fail("C09:reply:shape", "reply is not leap 0 / version 4 / mode 4 (server) / stratum 1",
-					[]string{op}, map[string]any{"lvm": lvm, "stratum": xs[1]})
+			if strings.HasPrefix(ans, "panic") {
+				sawPanic = true
 			}
-			if wellFormed(byte(lvm)) {
-				c.Fail("C09:reply:reflection", "the reply header byte is itself a well-formed request: two servers could answer each other",
-					[]string{op}, map[string]any{"lvm": lvm})
+			if ans != want {
+				c.Fail("C09:validate:packet", "ValidateRequest on a decoded packet depends on more than the first byte, or DecodePacket's size rule changed",
+					[]string{op}, map[string]any{"got": ans, "want": want})
 			}
-			if xs[2] != int64(int8(b[2])) {
-				c.Fail("C09:reply:poll", "reply poll is not the request's poll", []string{op}, map[string]any{"got": xs[2]})
-			}
-			c.Count("reply.hdr")
+			c.Count("vreqpkt:" + want)
 		}
-	}
 
-	// ---- (b) the IP listener on loopback ------------------------------------------------
-	if sawPanic {
-		// a decoder panic in a listener goroutine would take this process down with it; the
-		// failing input is already recorded above
-		c.NotExecuted("IP listener on loopback: skipped because ntp.DecodePacket panicked in-process (the listener would crash)")
-		return
-	}
+		c.Comment("reply header of handleRequest")
+		for b0 := 0; b0 < 256; b0++ {
+			for k := 0; k < 3; k++ {
+				b := r.Bytes(48)
+				b[0] = byte(b0)
+				switch k {
+				case 0:
+					b[2] = 0
+				case 1:
+					b[2] = 0x80 // poll -128
+				}
+				op := "reply.hdr " + lib.Hex(b)
+				ans := c.Do(op)
+				xs, ok := lib.Ints(ans)
+				if !ok || len(xs) != 9 {
+					c.Fail("C09:reply:header", "handleRequest did not produce a header", []string{op}, map[string]any{"got": ans})
+					continue
+				}
+				lvm := xs[0]
+				if lvm/64 != 0 || lvm/8%8 != 4 || lvm%8 != 4 || xs[1] != 1 {
+					c.Fail("C09:reply:shape", "reply is not leap 0 / version 4 / mode 4 (server) / stratum 1",
+						[]string{op}, map[string]any{"lvm": lvm, "stratum": xs[1]})
+				}
+				if wellFormed(byte(lvm)) {
+					c.Fail("C09:reply:reflection", "the reply header byte is itself a well-formed request: two servers could answer each other",
+						[]string{op}, map[string]any{"lvm": lvm})
+				}
+				if xs[2] != int64(int8(b[2])) {
+					c.Fail("C09:reply:poll", "reply poll is not the request's poll", []string{op}, map[string]any{"got": xs[2]})
+				}
+				c.Count("reply.hdr")
+			}
+		}
+
+		// ---- (b) the IP listener on loopback ------------------------------------------------
+		if sawPanic {
+			// a decoder panic in a listener goroutine would take this process down with it; the
+			// failing input is already recorded above
+			c.NotExecuted("IP listener on loopback: skipped because ntp.DecodePacket panicked in-process (the listener would crash)")
+			return
+		}
+	} // !ntsOnly
 	srvOnce.Do(startServer)
 	if srvErr != nil {
 		c.NotExecuted("IP listener on loopback: " + srvErr.Error())
@@ -1030,104 +1037,108 @@ func gen(c *lib.Ctx) {
 				[]string{op}, map[string]any{"got": ans, "want": wantAns, "datagram_lengths": lens})
 		}
 	}
-	for ln := 0; ln <= 48; ln++ { // every rejected length below 48 (and a 48-byte non-request), then a valid request
-		sendSeq([][]byte{junk(ln), validReq()}, "short-then-valid")
-	}
-	for _, ln := range []int{49, 50, 75, 76, 100, 1000, 2047, 2048, 2049, 2050, 3000, 4096, 9000} {
-		sendSeq([][]byte{junk(ln), validReq()}, "long-then-valid")
-	}
-	for i := 0; i < c.Scale(60, 1500); i++ { // mixed: valid / rejected in random order, 2..6 datagrams
-		n := 2 + r.Intn(5)
-		var ps [][]byte
-		for k := 0; k < n; k++ {
-			switch r.Intn(5) {
-			case 0, 1:
-				ps = append(ps, validReq())
-			case 2:
-				ps = append(ps, junk(r.Intn(48)))
-			case 3:
-				ps = append(ps, junk(48))
-			default:
-				ps = append(ps, junk([]int{49, 76, 500, 2048, 2049, 5000}[r.Intn(6)]))
-			}
+	if !ntsOnly {
+		for ln := 0; ln <= 48; ln++ { // every rejected length below 48 (and a 48-byte non-request), then a valid request
+			sendSeq([][]byte{junk(ln), validReq()}, "short-then-valid")
 		}
-		sendSeq(ps, "mixed")
-	}
+		for _, ln := range []int{49, 50, 75, 76, 100, 1000, 2047, 2048, 2049, 2050, 3000, 4096, 9000} {
+			sendSeq([][]byte{junk(ln), validReq()}, "long-then-valid")
+		}
+		for i := 0; i < c.Scale(60, 1500); i++ { // mixed: valid / rejected in random order, 2..6 datagrams
+			n := 2 + r.Intn(5)
+			var ps [][]byte
+			for k := 0; k < n; k++ {
+				switch r.Intn(5) {
+				case 0, 1:
+					ps = append(ps, validReq())
+				case 2:
+					ps = append(ps, junk(r.Intn(48)))
+				case 3:
+					ps = append(ps, junk(48))
+				default:
+					ps = append(ps, junk([]int{49, 76, 500, 2048, 2049, 5000}[r.Intn(6)]))
+				}
+			}
+			sendSeq(ps, "mixed")
+		}
+	} // !ntsOnly
 
 	ntsHistories(c, r, validReq, junk, &unanswered, &skipped, &notExec, maxUnanswered, remember, func() []string { return append([]string{}, recent...) })
 
-	c.Comment("IP listener on loopback: 256 first bytes x lengths x trailing data")
-	lengths := []int{0, 1, 47, 48, 49, 76, 1024, 2048, 2049}
-	for b0 := 0; b0 < 256; b0++ {
-		for _, ln := range lengths {
-			if ln == 0 {
-				if b0 == 0 {
-					send([]byte{}, "len0")
+	if !ntsOnly {
+		c.Comment("IP listener on loopback: 256 first bytes x lengths x trailing data")
+		lengths := []int{0, 1, 47, 48, 49, 76, 1024, 2048, 2049}
+		for b0 := 0; b0 < 256; b0++ {
+			for _, ln := range lengths {
+				if ln == 0 {
+					if b0 == 0 {
+						send([]byte{}, "len0")
+					}
+					continue
 				}
-				continue
-			}
-			if ln <= 48 {
-				p := r.Bytes(ln)
+				if ln <= 48 {
+					p := r.Bytes(ln)
+					p[0] = byte(b0)
+					send(p, fmt.Sprintf("len%d", ln))
+					continue
+				}
+				if ln > 100 && !wellFormed(byte(b0)) && !c.Thorough() && b0%16 != 5 {
+					continue // long datagrams for every first byte only in the thorough tier
+				}
+				p := append(r.Bytes(48), safeGarbage(r, ln-48)...)
 				p[0] = byte(b0)
-				send(p, fmt.Sprintf("len%d", ln))
+				send(p, fmt.Sprintf("len%d:garbage", ln))
+				if ln == 76 || ln == 49 {
+					// trailing zeros shorter than / equal to the loop threshold would be a zero-length
+					// field at 76 (F2); use 0xff filler instead
+					q := append(r.Bytes(48), make([]byte, ln-48)...)
+					for i := 48; i < len(q); i++ {
+						q[i] = 0xff
+					}
+					q[0] = byte(b0)
+					send(q, fmt.Sprintf("len%d:ff", ln))
+				}
+			}
+		}
+
+		// random header bytes around the accepted first bytes, random lengths near 48
+		m := c.Scale(1500, 40000)
+		for i := 0; i < m; i++ {
+			ln := 48
+			switch r.Intn(8) {
+			case 0:
+				ln = int(r.Range(0, 47))
+			case 1:
+				ln = int(r.Range(49, 75))
+			case 2:
+				ln = int(r.Range(76, 300))
+			}
+			var p []byte
+			if ln <= 48 {
+				p = r.Bytes(ln)
+			} else {
+				p = append(r.Bytes(48), safeGarbage(r, ln-48)...)
+			}
+			if ln > 0 && r.Chance(70) {
+				p[0] = []byte{8, 19, 27, 35, 200, 211, 219, 227}[r.Intn(8)]
+				if r.Chance(25) {
+					p[0] ^= 1 << r.Intn(8)
+				}
+			}
+			send(p, "random")
+		}
+
+		// reflection: a genuine reply of the listener, sent back to it, is not answered
+		c.Comment("reflection: the listener's own replies sent back to it")
+		for i := 0; i < 64 && unanswered < maxUnanswered; i++ {
+			rep := fetchReply(clients[i%len(clients)])
+			if rep == nil {
+				notExec++
 				continue
 			}
-			if ln > 100 && !wellFormed(byte(b0)) && !c.Thorough() && b0%16 != 5 {
-				continue // long datagrams for every first byte only in the thorough tier
-			}
-			p := append(r.Bytes(48), safeGarbage(r, ln-48)...)
-			p[0] = byte(b0)
-			send(p, fmt.Sprintf("len%d:garbage", ln))
-			if ln == 76 || ln == 49 {
-				// trailing zeros shorter than / equal to the loop threshold would be a zero-length
-				// field at 76 (F2); use 0xff filler instead
-				q := append(r.Bytes(48), make([]byte, ln-48)...)
-				for i := 48; i < len(q); i++ {
-					q[i] = 0xff
-				}
-				q[0] = byte(b0)
-				send(q, fmt.Sprintf("len%d:ff", ln))
-			}
+			send(rep, "reflected-reply")
 		}
-	}
-
-	// random header bytes around the accepted first bytes, random lengths near 48
-	m := c.Scale(1500, 40000)
-	for i := 0; i < m; i++ {
-		ln := 48
-		switch r.Intn(8) {
-		case 0:
-			ln = int(r.Range(0, 47))
-		case 1:
-			ln = int(r.Range(49, 75))
-		case 2:
-			ln = int(r.Range(76, 300))
-		}
-		var p []byte
-		if ln <= 48 {
-			p = r.Bytes(ln)
-		} else {
-			p = append(r.Bytes(48), safeGarbage(r, ln-48)...)
-		}
-		if ln > 0 && r.Chance(70) {
-			p[0] = []byte{8, 19, 27, 35, 200, 211, 219, 227}[r.Intn(8)]
-			if r.Chance(25) {
-				p[0] ^= 1 << r.Intn(8)
-			}
-		}
-		send(p, "random")
-	}
-
-	// reflection: a genuine reply of the listener, sent back to it, is not answered
-	c.Comment("reflection: the listener's own replies sent back to it")
-	for i := 0; i < 64 && unanswered < maxUnanswered; i++ {
-		rep := fetchReply(clients[i%len(clients)])
-		if rep == nil {
-			notExec++
-			continue
-		}
-		send(rep, "reflected-reply")
-	}
+	} // !ntsOnly
 	// nothing may be left over on any client socket: every reply went to the socket that sent
 	// the request (a reply to a different port would have been counted against another exchange
 	// or be waiting here)
